@@ -47,6 +47,8 @@ pub struct Report {
     pub samples: Vec<J>,
     pub notes: Vec<String>,
     pub property: Option<String>,
+    /// scenarios the harness itself could not run (pt group); reported by run.py as tool-error, never as failures
+    pub tool_errors: u64,
 }
 
 impl Report {
@@ -62,6 +64,7 @@ impl Report {
             samples: Vec::new(),
             notes: Vec::new(),
             property: opts.property.clone(),
+            tool_errors: 0,
         }
     }
 
@@ -119,6 +122,7 @@ impl Report {
             ("distinct", i(self.distinct.len() as i128)),
             ("bound", s(self.bound.clone())),
             ("failure_total", i(self.failure_total as i128)),
+            ("tool_errors", i(self.tool_errors as i128)),
             (
                 "failed_obligations",
                 J::Obj(obls.into_iter().map(|(k, v)| (k.clone(), i(*v as i128))).collect()),
